@@ -132,6 +132,15 @@ impl C18 {
         if via_file && stale > 0 {
             cx.count(if stale == 1 { "saved_over_existing_longer_file" } else { "saved_over_existing_same_length_file" });
         }
+        // history dimension: one case in five asks the THIRD format of the same helper for this library first, on this thread. TOML cannot
+        // express a GDSII library (the request is refused part-way through); a refused request may not leave anything behind
+        if cx.n % 5 == 3 {
+            match guard(|| SerializationFormat::Toml.to_string(lib).is_ok()) {
+                Ok(false) => cx.count("earlier_request_in_a_third_format_refused"),
+                Ok(true) => cx.count("earlier_request_in_a_third_format_served"),
+                Err(_) => cx.count("earlier_request_in_a_third_format_panicked_(not_judged:_TOML_is_outside_the_statement)"),
+            }
+        }
         let r = guard(|| -> Result<GdsLibrary, String> {
             if via_file {
                 // history dimension: every other case saves over an existing, longer file (an older copy), as a user re-saving does
